@@ -8,6 +8,7 @@ import (
 	"fmt"
 	"io"
 	"os/exec"
+	"strconv"
 	"strings"
 )
 
@@ -84,8 +85,12 @@ func (p *Pool) Inflate(raw []byte) (out, unused []byte, oracleErr string, err er
 	if len(f) >= 1 && f[0] == "err" {
 		return nil, nil, resp, nil
 	}
-	if len(f) != 3 || f[0] != "ok" {
+	if len(f) != 4 || f[0] != "ok" {
 		return nil, nil, "", fmt.Errorf("oracle protocol: %.100s", resp)
+	}
+	if f[3] == "midblock" {
+		// the input ends INSIDE a DEFLATE block: whatever was inflated so far, this is no stream a receiver can take
+		return unhex(f[1]), unhex(f[2]), "err the stream ends in the middle of a DEFLATE block (" + strconv.Itoa(len(raw)) + " bytes given)", nil
 	}
 	return unhex(f[1]), unhex(f[2]), "", nil
 }
